@@ -45,6 +45,8 @@
 //   Everything goes through Writer::process_writer_command / Writer::handle_ack_nack /
 //   Writer::reader_lost / Writer::participant_lost / Writer::update_reader_proxy; the observation is try_recv on the
 //   receiving side of the caller's sync_status_channel.
+//   (2b) xc_wfa_two_waits_*: histories with two sequential waits (the first one abandoned) on the
+//       real Writer; bound and oracle stated at that section.
 //   (3) datawriter_side::xc_dw_*: the REAL with_key::DataWriter (wait_for_acknowledgments and
 //       async_wait_for_acknowledgments) with a captured command channel; bound and oracle stated
 //       at that submodule.
@@ -244,6 +246,21 @@ mod verif_xc_ack_waiter {
       self.w.process_writer_command();
     }
 
+    // an earlier wait of the application, on its own channel
+    fn wait_command_on(&mut self, all_acked: StatusChannelSender<()>) {
+      self
+        .cmd
+        .try_send(WriterCommand::WaitForAcknowledgments { all_acked })
+        .unwrap_or_else(|_| panic!("harness: cannot send wait command"));
+      self.w.process_writer_command();
+    }
+
+    // a fresh history (only for the two-wait histories, where samples are written inside a case)
+    fn reset_history(&mut self) {
+      self.w.history_buffer = HistoryBuffer::new("verif_xc_ack_waiter".to_string());
+      self.written = 0;
+    }
+
     // back to "no reader matched, no wait armed" (assumption ackw.assume.no_overlap), history kept
     fn reset(&mut self) {
       for slot in 0..3 {
@@ -379,14 +396,20 @@ mod verif_xc_ack_waiter {
 
   // one wait on an already set-up rig: the call, then the events; oracle checked after every step
   fn run_wait(rig: &mut Rig, last0: i64, cfg: &[Slot; 3], events: &[Ev]) {
+    run_wait_after(rig, &"", last0, cfg, events)
+  }
+
+  // the same after some earlier history `pre` (printed in the witness): `cfg` = the readers as they
+  // are matched now
+  fn run_wait_after(rig: &mut Rig, pre: &dyn std::fmt::Display, last0: i64, cfg: &[Slot; 3], events: &[Ev]) {
     let mut m = Model::at_call(cfg, last0);
     rig.wait_command();
     let t = rig.tokens();
     if m.condition() {
-      assert!(t >= 1, "XC-WITNESS label=ackw.arm.prompt last_seq={} readers={:?}: no reliable matched reader is behind, success must be reported promptly, but no success token was offered while the command was processed", last0, cfg);
-      assert!(t == 1, "XC-WITNESS label=ackw.update.once last_seq={} readers={:?}: {} success tokens offered for one wait at the call", last0, cfg, t);
+      assert!(t >= 1, "XC-WITNESS label=ackw.arm.prompt {}last_seq={} readers={:?}: no reliable matched reader is behind, success must be reported promptly, but no success token was offered while the command was processed", pre, last0, cfg);
+      assert!(t == 1, "XC-WITNESS label=ackw.update.once {}last_seq={} readers={:?}: {} success tokens offered for one wait at the call", pre, last0, cfg, t);
     } else {
-      assert!(t == 0, "XC-WITNESS label=ackw.arm.pending last_seq={} readers={:?}: success reported at the call ({} token) although {} matched reliable and not acknowledged up to {}", last0, cfg, t, m.waiting_for(), last0);
+      assert!(t == 0, "XC-WITNESS label=ackw.arm.pending {}last_seq={} readers={:?}: success reported at the call ({} token) although {} matched reliable and not acknowledged up to {}", pre, last0, cfg, t, m.waiting_for(), last0);
     }
     let mut reported = t;
     for k in 0..events.len() {
@@ -397,13 +420,13 @@ mod verif_xc_ack_waiter {
       reported += t;
       let want = usize::from(m.condition());
       if reported > want && !m.condition() {
-        panic!("XC-WITNESS label=ackw.lemma.iff last_seq={} readers={:?} events={:?}: success reported by event #{} although {} (matched reliable at the call) neither acknowledged up to sequence number {} (ACKNACK base beyond it) nor was lost", last0, cfg, &events[..=k], k + 1, m.waiting_for(), last0);
+        panic!("XC-WITNESS label=ackw.lemma.iff {}last_seq={} readers={:?} events={:?}: success reported by event #{} although {} (matched reliable at the call) neither acknowledged up to sequence number {} (ACKNACK base beyond it) nor was lost", pre, last0, cfg, &events[..=k], k + 1, m.waiting_for(), last0);
       }
       if reported > want {
-        panic!("XC-WITNESS label=ackw.lemma.once last_seq={} readers={:?} events={:?}: {} success tokens offered for one wait (the extra one by event #{})", last0, cfg, &events[..=k], reported, k + 1);
+        panic!("XC-WITNESS label=ackw.lemma.once {}last_seq={} readers={:?} events={:?}: {} success tokens offered for one wait (the extra one by event #{})", pre, last0, cfg, &events[..=k], reported, k + 1);
       }
       if reported < want {
-        panic!("XC-WITNESS label=ackw.lemma.as_soon_as last_seq={} readers={:?} events={:?}: after event #{} every reliable reader matched at the call has acknowledged up to sequence number {} or was lost (condition {} before this event), but no success token was offered: the wait stays pending", last0, cfg, &events[..=k], k + 1, last0, if before { "already true" } else { "false" });
+        panic!("XC-WITNESS label=ackw.lemma.as_soon_as {}last_seq={} readers={:?} events={:?}: after event #{} every reliable reader matched at the call has acknowledged up to sequence number {} or was lost (condition {} before this event), but no success token was offered: the wait stays pending", pre, last0, cfg, &events[..=k], k + 1, last0, if before { "already true" } else { "false" });
       }
     }
   }
@@ -703,6 +726,183 @@ mod verif_xc_ack_waiter {
       }
     }
     assert!(n >= 300, "vacuity guard: only {} cases enumerated", n);
+  }
+
+  // ------------------------------------------------------------------------------------------
+  // (2b) two sequential waits on one writer: the first one is over from the application's point of
+  //      view (timed out / its future dropped: nobody listens on its channel any more) when the
+  //      second one is made — this is not the overlapping-waits case.  History:
+  //        write 1..=L1; match readers; wait#1; events E1; write L1+1..=L2; wait#2; events E2
+  //      Oracle for wait#2 only, from the statement: success iff every reliable reader matched
+  //      WHEN WAIT#2 WAS MADE has acknowledged everything written before wait#2 (base > L2) or has
+  //      since been lost; what wait#1 was waiting for is irrelevant.
+  //      The readers at wait#2 are the model's own account of match / lost / ACKNACK events
+  //      (highest base seen since the reader was matched; sequences in which a reader's ACKNACK
+  //      base decreases are skipped), cross-checked against the writer's record (harness.model).
+  // Bound: (L1, L2) in {(1,2), (2,4)}; g1, g2 each best-effort | reliable with all_acked_before 0 or
+  //      L1+1, g3 absent | reliable(0); E1 over ACKNACK(g, base in {L1+1, L2, L2+1}) / reader_lost(g)
+  //      / match-reliable(g) (g3 absent: a reader matched between the waits), E2 over
+  //      ACKNACK(g, base in {L2, L2+1}) / reader_lost(g); every (E1, E2) with |E1| <= 2 and
+  //      |E1| + |E2| <= 3, shortest first; for |E1| + |E2| <= 1 also with the receiver of wait#1 really dropped.
+  // ------------------------------------------------------------------------------------------
+  struct TwoWaits<'a> {
+    l1: i64,
+    l2: i64,
+    cfg: &'a [Slot; 3],
+    e1: &'a [Ev],
+    rx1_dropped: bool,
+  }
+  impl std::fmt::Display for TwoWaits<'_> {
+    fn fmt(&self, f: &mut std::fmt::Formatter<'_>) -> std::fmt::Result {
+      write!(f, "history=[write 1..={}; readers={:?}; wait#1 (abandoned{}); {:?}; write {}..={}; wait#2] at wait#2: ", self.l1, self.cfg,
+        if self.rx1_dropped { ", receiver dropped" } else { "" }, self.e1, self.l1 + 1, self.l2)
+    }
+  }
+
+  // the readers as the statement sees them after `e1`; None = a reader's ACKNACK base decreases
+  fn readers_after(cfg: &[Slot; 3], e1: &[Ev]) -> Option<[Slot; 3]> {
+    let mut r = *cfg;
+    for e in e1 {
+      match *e {
+        Ev::Ack(i, base) => match r[i] {
+          Slot::Absent => (), // not a matched reader: the writer does not know it
+          Slot::BestEffort(a) | Slot::Reliable(a) if base.max(1) < a => return None,
+          Slot::BestEffort(_) => r[i] = Slot::BestEffort(base.max(1)),
+          Slot::Reliable(_) => r[i] = Slot::Reliable(base.max(1)),
+        },
+        Ev::Lost(i) => r[i] = Slot::Absent,
+        Ev::Match(i) => {
+          r[i] = match r[i] {
+            Slot::Absent => Slot::Reliable(0), // newly matched: nothing acknowledged yet
+            Slot::BestEffort(a) | Slot::Reliable(a) => Slot::Reliable(a), // same reader, now reliable
+          }
+        }
+        Ev::PLost(_) | Ev::Write => unreachable!(),
+      }
+    }
+    Some(r)
+  }
+
+  fn two_waits(rig: &mut Rig, l1: i64, l2: i64, third: &[Slot]) -> u64 {
+    let mut n = 0u64;
+    let (abandoned_tx, _abandoned_rx) = sync_status_channel::<()>(8).unwrap();
+    let first_two = [Slot::BestEffort(0), Slot::Reliable(0), Slot::Reliable(l1 + 1)];
+    let mut ev1 = vec![];
+    let mut ev2 = vec![];
+    for i in 0..3 {
+      for b in dedup(vec![l1 + 1, l2, l2 + 1]) {
+        ev1.push(Ev::Ack(i, b));
+      }
+      ev1.push(Ev::Lost(i));
+      ev1.push(Ev::Match(i));
+      ev2.push(Ev::Ack(i, l2));
+      ev2.push(Ev::Ack(i, l2 + 1));
+      ev2.push(Ev::Lost(i));
+    }
+    for &s1 in &first_two {
+      for &s2 in &first_two {
+        for &s3 in third {
+          let cfg = [s1, s2, s3];
+          rig.w.timed_event_timer = small_timer();
+          for total in 0..=3usize {
+            for a in 0..=total.min(2) {
+              let b = total - a;
+              let mut i1 = vec![0usize; a];
+              'e1: loop {
+                let e1: Vec<Ev> = i1.iter().map(|i| ev1[*i]).collect();
+                if let Some(cfg2) = readers_after(&cfg, &e1) {
+                  let mut i2 = vec![0usize; b];
+                  'e2: loop {
+                    let e2: Vec<Ev> = i2.iter().map(|i| ev2[*i]).collect();
+                    for rx1_dropped in [false, true] {
+                      if rx1_dropped && total > 1 {
+                        continue;
+                      }
+                      // ---- the history on the real writer
+                      rig.reset_history();
+                      for _ in 0..l1 {
+                        rig.write_one();
+                      }
+                      setup(rig, &cfg);
+                      if rx1_dropped {
+                        let (tx, rx) = sync_status_channel::<()>(1).unwrap();
+                        rig.wait_command_on(tx);
+                        drop(rx);
+                      } else {
+                        rig.wait_command_on(abandoned_tx.clone());
+                      }
+                      for e in &e1 {
+                        apply(rig, *e);
+                      }
+                      for _ in l1..l2 {
+                        rig.write_one();
+                      }
+                      let pre = TwoWaits { l1, l2, cfg: &cfg, e1: &e1, rx1_dropped };
+                      for i in 0..3 {
+                        let real = match rig.w.readers.get(&rig.g[i]) {
+                          None => Slot::Absent,
+                          Some(rp) if rp.qos().is_reliable() => Slot::Reliable(i64::from(rp.all_acked_before)),
+                          Some(rp) => Slot::BestEffort(i64::from(rp.all_acked_before)),
+                        };
+                        assert!(real == cfg2[i], "XC-WITNESS label=harness.model {}the writer's record of {} is {:?}, the history says {:?}", pre, gname(i), real, cfg2[i]);
+                      }
+                      assert!(rig.tokens() == 0, "harness: token on the channel of wait#2 before wait#2");
+                      // ---- wait#2 and what follows, against the statement
+                      run_wait_after(rig, &pre, l2, &cfg2, &e2);
+                      n += 1;
+                    }
+                    if !next_index(&mut i2, ev2.len()) {
+                      break 'e2;
+                    }
+                  }
+                }
+                if !next_index(&mut i1, ev1.len()) {
+                  break 'e1;
+                }
+              }
+            }
+          }
+        }
+      }
+    }
+    n
+  }
+
+  // odometer over `idx` (last position fastest); false when it wraps around (also for length 0)
+  fn next_index(idx: &mut [usize], base: usize) -> bool {
+    let mut p = idx.len();
+    while p > 0 {
+      p -= 1;
+      idx[p] += 1;
+      if idx[p] < base {
+        return true;
+      }
+      idx[p] = 0;
+    }
+    false
+  }
+
+  fn two_waits_test(l1: i64, l2: i64, third: Slot) {
+    let t0 = std::time::Instant::now();
+    let n = two_waits(&mut Rig::new(), l1, l2, &[third]);
+    eprintln!("two_waits({}, {}, g3 {:?}): {} histories in {:?}", l1, l2, third, n, t0.elapsed());
+    assert!(n >= 15_000, "vacuity guard: only {} histories enumerated", n);
+  }
+  #[test]
+  fn xc_wfa_two_waits_1_2_a() {
+    two_waits_test(1, 2, Slot::Absent);
+  }
+  #[test]
+  fn xc_wfa_two_waits_1_2_b() {
+    two_waits_test(1, 2, Slot::Reliable(0));
+  }
+  #[test]
+  fn xc_wfa_two_waits_2_4_a() {
+    two_waits_test(2, 4, Slot::Absent);
+  }
+  #[test]
+  fn xc_wfa_two_waits_2_4_b() {
+    two_waits_test(2, 4, Slot::Reliable(0));
   }
 
   // ------------------------------------------------------------------------------------------
